@@ -527,7 +527,15 @@ func (m *MmsTables) Sequencer() *Sequencer {
 func (m *MmsTables) IsOutOfOrderFilesExist() bool {
 	m.mu.RLock()
 	defer m.mu.RUnlock()
-	return len(m.OutOfOrder) != 0
+	for _, v := range m.OutOfOrder {
+		v.lock.RLock()
+		n := v.Len()
+		v.lock.RUnlock()
+		if n > 0 {
+			return true
+		}
+	}
+	return false
 }
 
 func (m *MmsTables) sortTSSPFiles() {
